@@ -1776,8 +1776,9 @@ func (e *CoreExtension) filterMerge(value interface{}, args ...interface{}) (int
 	if rv.Kind() == reflect.Map {
 		result := make(map[string]interface{}, rv.Len())
 
-		// Copy original values
-		for _, key := range rv.MapKeys() {
+		// Copy original values (in key order: keys that print alike, such as 1
+		// and "1" in an interface-keyed map, must always resolve the same way)
+		for _, key := range sortedMapKeys(rv) {
 			result[toString(key.Interface())] = rv.MapIndex(key).Interface()
 		}
 
@@ -1785,7 +1786,7 @@ func (e *CoreExtension) filterMerge(value interface{}, args ...interface{}) (int
 		for _, arg := range args {
 			argRv := reflect.ValueOf(arg)
 			if argRv.Kind() == reflect.Map {
-				for _, key := range argRv.MapKeys() {
+				for _, key := range sortedMapKeys(argRv) {
 					result[toString(key.Interface())] = argRv.MapIndex(key).Interface()
 				}
 			}
@@ -2300,7 +2301,7 @@ func (e *CoreExtension) functionMerge(args ...interface{}) (interface{}, error) 
 		} else {
 			// Use reflection for other map types
 			baseRv := reflect.ValueOf(base)
-			for _, key := range baseRv.MapKeys() {
+			for _, key := range sortedMapKeys(baseRv) {
 				keyStr := toString(key.Interface())
 				result[keyStr] = baseRv.MapIndex(key).Interface()
 			}
@@ -2317,7 +2318,7 @@ func (e *CoreExtension) functionMerge(args ...interface{}) (interface{}, error) 
 				// Use reflection for other map types
 				argRv := reflect.ValueOf(arg)
 				if argRv.Kind() == reflect.Map {
-					for _, key := range argRv.MapKeys() {
+					for _, key := range sortedMapKeys(argRv) {
 						keyStr := toString(key.Interface())
 						result[keyStr] = argRv.MapIndex(key).Interface()
 					}
